@@ -21,6 +21,7 @@ import (
 	ethcommon "github.com/ethereum/go-ethereum/common"
 	"github.com/ontio/ontology/common"
 	"github.com/ontio/ontology/core/payload"
+	"github.com/ontio/ontology/core/store"
 	"github.com/ontio/ontology/core/store/ledgerstore"
 	"github.com/ontio/ontology/core/types"
 	cutils "github.com/ontio/ontology/core/utils"
@@ -184,7 +185,108 @@ func c40VerifyAll(ls *ledgerstore.LedgerStoreImp, recs []c40Rec, unknown []commo
 			return err
 		}
 	}
+	// no header is announced beyond the tip at a checkpoint, so the header chain ends at the tip
+	if h := ls.GetCurrentHeaderHeight(); h != top {
+		return fmt.Errorf("GetCurrentHeaderHeight() = %d with tip %d and no header announced above it", h, top)
+	}
+	if hh := ls.GetCurrentHeaderHash(); hh != recs[top].Hash {
+		return fmt.Errorf("GetCurrentHeaderHash() = %s, committed tip %s (no header announced above it)", hh.ToHexString(), recs[top].Hash.ToHexString())
+	}
 	return c40VerifyUnknown(ls, top, unknown, []uint32{1, 2, 7, 2000, math.MaxUint32 - top})
+}
+
+// ---------------------------------------------------------------------------------------------
+// delivery modes
+
+// c40Mode is how a generated block reaches the ledger.
+//
+//	apply:      ExecuteBlock + SubmitBlock (a consensus member)
+//	header:     header-first sync: AddHeaders([header of the block]) then the block itself
+//	header-alt: header sync announced a DIFFERENT valid block at this height (same parent, later
+//	            timestamp, possibly other transactions, signed by the bookkeeper); then the
+//	            generated block is committed. The committed block is the oracle's record.
+type c40Mode struct {
+	Kind     string // "apply" | "header" | "header-alt"
+	AltDelta uint32 // header-alt: timestamp offset of the alternative (>= 1)
+	AltTxs   int    // header-alt: the alternative carries the first AltTxs transactions of the block
+	AddBlock bool   // header modes: commit through AddBlock (decoded copy, as block sync does) instead of ExecuteBlock+SubmitBlock
+}
+
+func c40DrawMode(t *rapid.T, ntx int) c40Mode {
+	m := c40Mode{Kind: rapid.SampledFrom([]string{"apply", "header", "header-alt", "header-alt", "header", "apply"}).Draw(t, "delivery")}
+	if m.Kind != "apply" {
+		m.AddBlock = rapid.Bool().Draw(t, "viaAddBlock")
+	}
+	if m.Kind == "header-alt" {
+		m.AltDelta = uint32(rapid.IntRange(1, 3).Draw(t, "altdelta"))
+		m.AltTxs = rapid.IntRange(0, ntx).Draw(t, "alttxs")
+	}
+	return m
+}
+
+func (m c40Mode) String() string {
+	switch m.Kind {
+	case "apply":
+		return ""
+	case "header":
+		if m.AddBlock {
+			return "~hA"
+		}
+		return "~hS"
+	default:
+		s := fmt.Sprintf("~alt+%d/%d", m.AltDelta, m.AltTxs)
+		if m.AddBlock {
+			return s + "A"
+		}
+		return s + "S"
+	}
+}
+
+// c40Deliver hands the block to the ledger in the given mode. Every error is a rejection of an
+// input the ledger must accept (the headers and the block are valid and correctly signed).
+func c40Deliver(ch *fix.Chain, blk *types.Block, m c40Mode) (store.ExecuteResult, error) {
+	ls := ch.LS
+	if m.Kind == "apply" {
+		return ch.Apply(blk)
+	}
+	h := blk.Header.Height
+	announced := blk.Header
+	if m.Kind == "header-alt" {
+		alt, err := ch.MakeBlockAt(h, blk.Header.PrevBlockHash, blk.Transactions[:m.AltTxs], blk.Header.Timestamp+m.AltDelta)
+		if err != nil {
+			return store.ExecuteResult{}, fmt.Errorf("harness: building the alternative block: %v", err)
+		}
+		if alt.Hash() == blk.Hash() {
+			return store.ExecuteResult{}, fmt.Errorf("harness: alternative block equals the block")
+		}
+		announced = alt.Header
+	}
+	// as received from the network: a decoded copy
+	hdr, err := types.HeaderFromRawBytes(announced.ToArray())
+	if err != nil {
+		return store.ExecuteResult{}, fmt.Errorf("harness: header does not decode: %v", err)
+	}
+	if err := ls.AddHeaders([]*types.Header{hdr}); err != nil {
+		return store.ExecuteResult{}, fmt.Errorf("AddHeaders(valid header of height %d on tip %d): %v", h, ls.GetCurrentBlockHeight(), err)
+	}
+	if got := ls.GetCurrentHeaderHeight(); got != h {
+		return store.ExecuteResult{}, fmt.Errorf("after AddHeaders(header of height %d) GetCurrentHeaderHeight() = %d", h, got)
+	}
+	if got := ls.GetCurrentHeaderHash(); got != hdr.Hash() {
+		return store.ExecuteResult{}, fmt.Errorf("after AddHeaders(header %s of height %d) GetCurrentHeaderHash() = %s", hdr.Hash().ToHexString(), h, got.ToHexString())
+	}
+	res, err := ls.ExecuteBlock(blk)
+	if err != nil {
+		return res, err
+	}
+	if m.AddBlock {
+		cp, err := types.BlockFromRawBytes(blk.ToArray())
+		if err != nil {
+			return res, fmt.Errorf("harness: block does not decode: %v", err)
+		}
+		return res, ls.AddBlock(cp, nil, res.MerkleRoot)
+	}
+	return res, ls.SubmitBlock(blk, nil, res)
 }
 
 // ---------------------------------------------------------------------------------------------
@@ -311,7 +413,7 @@ func harnShort(b []byte) []byte {
 
 func TestC40_QueriesAgree(t *testing.T) {
 	ev := harn.For("C40")
-	ev.Rule("chains of 5-40 blocks on a solo ledger; block 1 funds two native and two EVM accounts, every other block carries 0-6 generated txs (ONT/ONG transfers by 4 accounts of 3 key types incl. zero/over-balance/unfunded-payer ones, NeoVM deploy and invoke, EIP-155 transfers incl. below-intrinsic-gas and over-balance ones, EIP-155 creations emitting 0-3 logs that return/revert/fault); the ledger is closed and reopened after generated heights; at each checkpoint (before and after each restart, and before/after a final restart) every height is read through GetBlockHash, GetBlockByHeight, GetBlockByHash, GetHeaderByHash, GetHeaderByHeight, GetRawHeaderByHash, GetTransaction(+height), IsContainBlock/Transaction and compared with the harness's record of the committed bytes; never-committed hashes and heights above the tip must not be found. Non-trivial = chain with a block of >= 2 txs, a failing tx, an EIP-155 tx and a restart followed by further blocks; distinct by the full plan")
+	ev.Rule("chains of 5-40 blocks on a solo ledger; block 1 funds two native and two EVM accounts, every other block carries 0-6 generated txs (ONT/ONG transfers by 4 accounts of 3 key types incl. zero/over-balance/unfunded-payer ones, NeoVM deploy and invoke, EIP-155 transfers incl. below-intrinsic-gas and over-balance ones, EIP-155 creations emitting 0-3 logs that return/revert/fault); every block is delivered in a generated mode: ExecuteBlock+SubmitBlock, header-first sync (AddHeaders of its header, then AddBlock of a decoded copy or Execute+Submit), or after header sync announced a DIFFERENT valid block of that height (same parent, later timestamp, a prefix of the txs, bookkeeper-signed) - the committed block stays the oracle; the ledger is closed and reopened after generated heights; at each checkpoint (before and after each restart, and before/after a final restart) every height is read through GetBlockHash, GetBlockByHeight, GetBlockByHash, GetHeaderByHash, GetHeaderByHeight, GetRawHeaderByHash, GetTransaction(+height), IsContainBlock/Transaction and compared with the harness's record of the committed bytes; never-committed hashes and heights above the tip must not be found. GetCurrentHeaderHeight/Hash equal the announced header right after AddHeaders and the tip at checkpoints. Non-trivial = chain with a block of >= 2 txs, a failing tx, an EIP-155 tx, a header-first block, a block committed over an announced alternative, and a restart followed by further blocks; distinct by the full plan")
 	bk := fix.Key(fix.KP256, 0)
 	harn.Check(t, 40, 600, func(t *rapid.T) {
 		nBlocks := rapid.IntRange(5, 40).Draw(t, "blocks")
@@ -335,7 +437,7 @@ func TestC40_QueriesAgree(t *testing.T) {
 		}
 		unknown = append(unknown, common.UINT256_EMPTY)
 		var plan []string
-		var multi, failing, evm, restartMid bool
+		var multi, failing, evm, restartMid, altSeen, hdrSeen bool
 		restarts := 0
 		checkpoint := func(stage string) {
 			// hashes derived from committed ones that were never committed themselves
@@ -373,12 +475,21 @@ func TestC40_QueriesAgree(t *testing.T) {
 				t.Fatal(err)
 			}
 			rec := c40Record(blk)
-			res, err := ch.Apply(blk)
+			mode := c40DrawMode(t, len(txs))
+			res, err := c40Deliver(ch, blk, mode)
 			if err != nil {
-				t.Fatalf("ledger rejected generated block %d [%s]: %v", b, strings.Join(descs, ","), err)
+				t.Fatalf("ledger rejected generated block %d [%s] delivered as %+v after %s: %v", b, strings.Join(descs, ","), mode, strings.Join(plan, "|"), err)
 			}
 			recs = append(recs, rec)
-			plan = append(plan, fmt.Sprintf("%d:[%s]", b, strings.Join(descs, ",")))
+			plan = append(plan, fmt.Sprintf("%d%s:[%s]", b, mode, strings.Join(descs, ",")))
+			ev.Class("delivery:" + mode.Kind)
+			ev.Class("block")
+			if mode.Kind == "header-alt" {
+				altSeen = true
+			}
+			if mode.Kind == "header" {
+				hdrSeen = true
+			}
 			ev.Class(fmt.Sprintf("block:ntx=%d", len(txs)))
 			if len(txs) >= 2 && b > 1 {
 				multi = true
@@ -427,9 +538,12 @@ func TestC40_QueriesAgree(t *testing.T) {
 		if len(d) > 560 {
 			d = d[:400] + fmt.Sprintf("…#%x", recs[len(recs)-1].Hash[:6])
 		}
-		ev.Case(multi && failing && evm && restartMid, d)
+		ev.Case(multi && failing && evm && restartMid && altSeen && hdrSeen, d)
 	})
 	ev.Floor("chain:restart-mid", "chain", 0.3)
+	ev.Floor("delivery:header", "block", 0.15)
+	ev.Floor("delivery:header-alt", "block", 0.15)
+	ev.Floor("delivery:apply", "block", 0.15)
 	ev.Floor("tx:eip155:ok", "tx:eip155", 0.2)
 	ev.Floor("tx:native:failed", "tx:native", 0.1)
 }
@@ -440,7 +554,7 @@ func TestC40_QueriesAgree(t *testing.T) {
 // and reads every height.
 func TestC40_HeaderIndexWindow(t *testing.T) {
 	ev := harn.For("C40")
-	ev.Rule("long chains: HEADER_INDEX_MAX_SIZE + 20..400 blocks (about 1 in 40 carrying 1-3 generated txs), a restart at a generated height past the window size, 1..60 further blocks; all heights verified before the restart, after it and at the end (same getters and record as above). Non-trivial = always (the window has slid at every checkpoint); distinct by lengths and restart height")
+	ev.Rule("long chains: HEADER_INDEX_MAX_SIZE + 20..400 blocks (some carrying 1-3 generated txs, some delivered header-first or over an announced alternative header), a restart at a generated height past the window size, 1..60 further blocks; all heights verified before the restart, after it and at the end (same getters and record as above). Non-trivial = always (the window has slid at every checkpoint); distinct by lengths and restart height")
 	bk := fix.Key(fix.KP256, 0)
 	harn.Check(t, 1, 16, func(t *rapid.T) {
 		W := int(ledgerstore.HEADER_INDEX_MAX_SIZE)
@@ -483,9 +597,14 @@ func TestC40_HeaderIndexWindow(t *testing.T) {
 				t.Fatal(err)
 			}
 			rec := c40Record(blk)
-			if _, err := ch.Apply(blk); err != nil {
-				t.Fatalf("ledger rejected generated block %d: %v", b, err)
+			mode := c40Mode{Kind: "apply"}
+			if rapid.IntRange(0, 7).Draw(t, "special") == 7 {
+				mode = c40DrawMode(t, len(txs))
 			}
+			if _, err := c40Deliver(ch, blk, mode); err != nil {
+				t.Fatalf("ledger rejected generated block %d delivered as %+v: %v", b, mode, err)
+			}
+			ev.Class("longchain:delivery:" + mode.Kind)
 			recs = append(recs, rec)
 		}
 		for b := 1; b <= first; b++ {
